@@ -425,3 +425,110 @@ pub fn walk(
 pub fn case_path(case: &Value) -> Vec<u8> {
     case.get("path").and_then(|p| p.as_array()).map(|a| a.iter().map(|x| x.as_u64().unwrap_or(0) as u8).collect()).unwrap_or_default()
 }
+
+// ------------------------------------------------------------------------------------------
+// Pairs of positions that agree in one half of their Zobrist key, evaluated back to back (DESIGN 5.6)
+
+fn nth_position(seed: u64, i: u64) -> Option<(RefPos, u64)> {
+    let mut x = crate::gen::splitmix(seed ^ i.wrapping_mul(0x9E37_79B9_7F4A_7C15) ^ 0x6861_6c66);
+    let mut genome = [0u8; 176];
+    for chunk in genome.chunks_mut(8) {
+        x = crate::gen::splitmix(x);
+        chunk.copy_from_slice(&x.to_le_bytes()[..chunk.len()]);
+    }
+    let mut cur = Cursor::new(&genome);
+    // all sources except the four that search or play out (they cost 10-100 times more per position)
+    const FAST: [usize; 16] = [0, 1, 3, 4, 5, 6, 7, 8, 9, 10, 11, 13, 14, 17, 18, 19];
+    let sel = FAST[cur.below(FAST.len())];
+    let (p, _) = crate::gen::positions::gen_position_from(&mut cur, sel);
+    if !p.is_valid() || p.normalised() != p {
+        return None;
+    }
+    let b = Board::try_from(raw_from_ref(&p)).ok()?;
+    Some((p, b.zobrist_hash()))
+}
+
+/// Generates `m` positions from all sources, sorts them by the low and by the high half of the library's own key and
+/// returns the pairs that agree in one half (and are different positions), spread evenly, at most `cap` per half.
+pub fn half_key_pairs(seed: u64, m: u64, cap: usize) -> Vec<Value> {
+    let per = (m + crate::engine::SHARDS as u64 - 1) / crate::engine::SHARDS as u64;
+    let mut all: Vec<(u64, u64)> = std::thread::scope(|s| {
+        let hs: Vec<_> = (0..crate::engine::SHARDS as u64)
+            .map(|t| {
+                s.spawn(move || {
+                    let mut v = Vec::with_capacity(per as usize);
+                    for i in (t * per)..((t + 1) * per).min(m) {
+                        if let Some((_, h)) = nth_position(seed, i) {
+                            v.push((h, i));
+                        }
+                    }
+                    v
+                })
+            })
+            .collect();
+        hs.into_iter().flat_map(|h| h.join().unwrap()).collect()
+    });
+    let mut out = Vec::new();
+    for (half, shift) in [("low", 0u32), ("high", 32u32)] {
+        all.sort_by_key(|(h, i)| ((h >> shift) as u32, *i));
+        let mut found: Vec<(u64, u64)> = Vec::new();
+        for w in all.windows(2) {
+            if (w[0].0 >> shift) as u32 == (w[1].0 >> shift) as u32 && w[0].0 != w[1].0 {
+                found.push((w[0].1, w[1].1));
+            }
+        }
+        let step = (found.len() / cap.max(1)).max(1);
+        for (k, (i, j)) in found.iter().enumerate() {
+            if k % step != 0 {
+                continue;
+            }
+            let (a, b) = (nth_position(seed, *i).unwrap().0, nth_position(seed, *j).unwrap().0);
+            // both orders
+            out.push(json!({"first": a.fen(), "fen": b.fen(), "half": half}));
+            out.push(json!({"first": b.fen(), "fen": a.fen(), "half": half}));
+        }
+    }
+    out
+}
+
+/// The property's check on the first position, then on the second, on one thread with nothing in between.
+pub fn run_pair(case: &Value, stats: &mut Stats, f: fn(&Value, &mut Stats) -> Result<(), Failure>) -> Result<(), Failure> {
+    let first = json!({"fen": case["first"]});
+    let mut scratch = Stats::default();
+    f(&first, &mut scratch).map_err(|e| Failure::new(format!("on the first position of the pair: {}", e.msg)))?;
+    let second = json!({"fen": case["fen"]});
+    f(&second, &mut scratch).map_err(|e| Failure::new(format!("on the second position, right after the first: {}", e.msg)))?;
+    stats.label(&format!("equal_{}_half_of_the_key", case["half"].as_str().unwrap_or("?")));
+    stats.nontrivial(&(case["first"].to_string(), case["fen"].to_string()));
+    Ok(())
+}
+
+pub fn half_key_driver(
+    prop: &'static str,
+    check: fn(&Value, &mut Stats) -> Result<(), Failure>,
+    ctx: &crate::engine::RunCtx,
+    stats: &mut Stats,
+    rep: &mut crate::engine::Reporter,
+) {
+    let (m, cap) = match ctx.tier {
+        crate::engine::Tier::Quick => (2_000_000u64, 3000usize),
+        crate::engine::Tier::Thorough => (16_000_000, 30000),
+    };
+    let m = (m * crate::engine::cases_percent() / 100).max(1000);
+    let cases = half_key_pairs(ctx.seed, m, cap);
+    stats.add("positions_generated_for_the_pair_search", m);
+    if let Some(c) = cases.first() {
+        stats.sample(c.clone());
+    }
+    // One thread, one pair after the other: state the library keeps between calls may be global as well as per thread,
+    // and nothing may come between the two positions of a pair.
+    let mut reported = 0;
+    for c in &cases {
+        if let Err(f) = crate::engine::guarded(prop, "half_key_pairs", check, c, stats) {
+            if reported < 4 {
+                rep(c.clone(), f);
+                reported += 1;
+            }
+        }
+    }
+}
